@@ -12,8 +12,11 @@ SEARCHERS = {
     "C06": {"file": "search/container.rs", "mode": "integration", "env": {"VERIF_SEARCH": "c06"}},
     "C11": {"file": "search/container.rs", "mode": "integration", "env": {"VERIF_SEARCH": "c11"}},
     "C13": {"file": "search/container.rs", "mode": "integration", "env": {"VERIF_SEARCH": "c13"}},
+    "C12": {"file": "search/container.rs", "mode": "integration", "env": {"VERIF_SEARCH": "c12"}},
     "C10": {"file": "search/codec.rs", "mode": "append", "target": "src/cabac_codec.rs"},
     "C08": {"file": "search/header.rs", "mode": "append", "target": "src/preflate_parameter_estimator.rs"},
+    "C07": {"file": "search/deflate.rs", "mode": "append", "target": "src/process.rs"},
+    "C03": {"file": "search/deflate.rs", "mode": "append", "target": "src/process.rs"},
 }
 
 
